@@ -16,7 +16,9 @@ use std::collections::{BTreeMap, BTreeSet};
 pub struct C13;
 
 /// built by ./check (thorough tier) from /repo's working tree
-pub const REAL_BIN: &str = "/verif/sim/target/repo-bin/release/cargo-tauri-typegen";
+pub fn real_bin() -> String {
+    format!("{}/sim/target/repo-bin/release/cargo-tauri-typegen", crate::harness::verif_dir())
+}
 
 #[derive(Clone, Debug, Serialize, Deserialize)]
 struct Case {
@@ -471,8 +473,8 @@ impl Check for C13 {
             }
             if c.real_bin && co.violations.is_empty() {
                 // the same generation through the real binary, as a real OS process
-                match std::path::Path::new(REAL_BIN).exists() {
-                    false => co.harness_error = Some(format!("{} missing: run through ./check, which builds it", REAL_BIN)),
+                match std::path::Path::new(&real_bin()).exists() {
+                    false => co.harness_error = Some(format!("{} missing: run through ./check, which builds it", real_bin())),
                     true => {
                         let mut cfg = c.cfg.clone();
                         cfg.visualize = c.viz[0];
@@ -480,7 +482,7 @@ impl Check for C13 {
                         w.write_config(&c.setup, &cfg);
                         let _ = std::fs::remove_dir_all(w.out_dir(&c.setup));
                         let argv = w.argv(&c.setup, &cfg, true, false);
-                        let outp = std::process::Command::new(REAL_BIN)
+                        let outp = std::process::Command::new(real_bin())
                             .args(&argv[1..])
                             .current_dir(w.cwd(&c.setup))
                             .output();
@@ -499,7 +501,7 @@ impl Check for C13 {
                                 "every run on identical input has the same outcome",
                                 format!("simulated runs ok, real binary exit {:?}: {}", o.status.code(), String::from_utf8_lossy(&o.stderr).chars().take(200).collect::<String>()),
                             ),
-                            Err(e) => co.harness_error = Some(format!("cannot start {}: {}", REAL_BIN, e)),
+                            Err(e) => co.harness_error = Some(format!("cannot start {}: {}", real_bin(), e)),
                         }
                     }
                 }
